@@ -108,8 +108,13 @@ def classify_interstorms(cursor, data_interval, rising_jump_threshold_mm_h):
     # Look for jumps in head much bigger than noise, which could
     # indicate the onset of rain, and mark everything after the jump
     # until the next rain as a "mystery jump".
-    rates = np.concatenate(([0], (zeta_mm[1:] - zeta_mm[:-1]) / (hour[1:] - hour[:-1])))
-    is_jump = (rates > rising_jump_threshold_mm_h).astype(bool)
+    (time_step_h,) = cursor.execute(
+        """
+    SELECT CAST(time_step_s AS double precision) / 3600.
+    FROM time_grid"""
+    ).fetchone()
+    increments = np.concatenate(([0], zeta_mm[1:] - zeta_mm[:-1]))
+    is_jump = increments > rising_jump_threshold_mm_h * time_step_h
     is_mystery_jump = get_mystery_jump_mask(is_jump, is_raining)
     is_interstorm = (~is_mystery_jump) & (~is_raining)
     interval_mask = is_interstorm
